@@ -200,8 +200,12 @@ static void restart_cb(tpt_p tpt, void *udata) {
 	}
 	__atomic_store_n(&g_restarted, 1, __ATOMIC_RELEASE);
 }
+static unsigned g_close_before_destroy;
 static void destroy_cb(tpt_p tpt, void *udata) {
 	(void)tpt; (void)udata;
+	/* the application closed the descriptor itself before it stops / destroys the task: removing the descriptor event then
+	 * fails with EBADF, everything else of the task (its timeout timer) must be torn down all the same */
+	if (g_close_before_destroy && g_task && g_sv[0] >= 0) { close(g_sv[0]); g_sv[0] = -1; }
 	if (g_task) { tp_task_destroy(g_task); g_task = NULL; }
 	__atomic_store_n(&g_stopped, 1, __ATOMIC_RELEASE);
 	TM_LOG(EV_STOP, 9, 0, 0, 0);
@@ -270,6 +274,7 @@ int main(void) {
 	seed = vin_u64(&in); g_mode = vin_u8(&in);
 	g_S = vin_u32(&in); g_win_o = vin_u32(&in); g_win_t = vin_u32(&in);
 	g_event_flags = vin_u8(&in); g_task_flags = vin_u8(&in); g_sfio = vin_u8(&in); g_timeout_ms = vin_u32(&in);
+	g_close_before_destroy = (g_task_flags & 0x80) != 0; g_task_flags &= 0x7f; /* bit 7 is a harness flag */
 	g_on_timeout = vin_u8(&in); g_on_eof_ret = vin_u8(&in); g_every_read_reset = vin_u8(&in); g_stop_after = vin_u32(&in);
 	g_close_mode = vin_u8(&in); quiesce_ms = vin_u32(&in); g_wait_done = vin_u8(&in); g_pause_after = vin_u32(&in); g_use_tcp = vin_u8(&in);
 	g_drain_chunk = vin_u32(&in); g_drain_gap_us = vin_u32(&in); g_drain_stop_after = vin_u32(&in); sndbuf = vin_u32(&in); nclients = vin_u16(&in);
@@ -362,6 +367,10 @@ int main(void) {
 	/* provoke late callbacks: more data after destroy */
 	if (g_mode == 1 && g_sv[1] >= 0) { (void)!send(g_sv[1], "late", 4, MSG_NOSIGNAL | MSG_DONTWAIT); }
 	{ struct timespec ts = {0, 5000000}; nanosleep(&ts, NULL); }
+	if (g_close_before_destroy && g_timeout_ms) { /* a timeout timer left armed would fire now */
+		uint64_t ns = (uint64_t)g_timeout_ms * 2500000ull; struct timespec ts = { (time_t)(ns / 1000000000ull), (long)(ns % 1000000000ull) };
+		nanosleep(&ts, NULL);
+	}
 	tp_shutdown(g_tp); tp_shutdown_wait(g_tp); tp_destroy(g_tp);
 
 	vout_u32(&o, 0xC16C16); vout_u8(&o, (uint8_t)g_mode);
